@@ -1014,6 +1014,22 @@ def gen_history_cases(seed, count, maxops=40):
             pool[r.randrange(2)] = Grammar(bt, [('S', 'l', 1, ['S', 'I'], [0, 1]), ('S', None, 0, ['I'], [0])] +
                                            [('I', 'i%d' % j, 1, [h, bt[r.randrange(k)][0]], [0, 1]) for j, h in enumerate(hi)] +
                                            [('I', None, 0, [hi[0]], [0])], True)
+        if r.random() < 0.12:
+            # many dynamic-lookahead contexts: one nonterminal predicted in k different right contexts;
+            # the contexts are numbered per grammar and survive between parses, the situation tables
+            # are per parse (a later, shorter input asks first for a high context number)
+            k = r.randint(12, 26)
+            ct = [('x%d' % j, 300 + 2 * j) for j in range(k)] + [('y%d' % j, 301 + 2 * j) for j in range(k)] + [('z', 7)]
+            cg = Grammar(ct, [('S', None, 0, ['I'], [0]), ('S', 's', 1, ['S', 'I'], [0, 1])] +
+                             [('I', 'i%d' % j, 1, ['x%d' % j, 'B', 'y%d' % j], [1]) for j in range(k)] + [('B', None, 0, ['z'], [0])], True)
+            def ctx_inputs(r, tn, k=k):
+                if r.random() < 0.4: js = list(range(k))
+                elif r.random() < 0.5: js = [k - 1 - r.randrange(3)]
+                else: js = [r.randrange(k) for _ in range(r.randint(1, 3))]
+                return [t for j in js for t in ('x%d' % j, 'z', 'y%d' % j)]
+            cg.inputs_fn = ctx_inputs
+            cg.ctx_k = k
+            pool[r.randrange(2)] = cg
         pool += [bad_variant(r, pool[0]), gen_def_grammar(r)]
         lines = ['case H-%d-%d history' % (seed, i)]
         for gid, g in enumerate(pool): lines += g.text(gid)
@@ -1031,7 +1047,8 @@ def gen_history_cases(seed, count, maxops=40):
         alive = [False] * 3; defined = [None] * 3; nparse = [0] * 3; freed = [set() for _ in range(3)]
         inputs = {}
         for gid in (0, 1):
-            inputs[gid] = gen_inputs(r, pool[gid], 4, 6)
+            inputs[gid] = gen_inputs(r, pool[gid], 4, 6) if getattr(pool[gid], 'inputs_fn', None) is None else \
+                          [pool[gid].inputs_fn(r, [n_ for n_, _ in pool[gid].terms])[:90] for _ in range(6)]
         def set_burst(h, k):
             for key in r.sample(['la', 'one', 'cost', 'rec', 'match', 'debug'], k):
                 v = {'la': r.choice([-2, 0, 1, 2, 5]), 'one': r.choice([0, 1, 1, 7]), 'cost': r.choice([0, 0, 1]), 'rec': r.choice([0, 1]),
@@ -1050,6 +1067,14 @@ def gen_history_cases(seed, count, maxops=40):
             elif x < 0.22:
                 gid = r.choice([0, 0, 1, 1, 2, 3])
                 op('def %d %d' % (h, gid)); defined[h] = gid
+                kk = getattr(pool[gid], 'ctx_k', None) if gid < 2 else None
+                if kk and r.random() < 0.7 and nparse[h] < 55:
+                    # all contexts first, then an input that starts with a late one, on the same object
+                    g = pool[gid]
+                    op('set %d la 2' % h); op('set %d rec 0' % h)
+                    longs = [t for j in range(kk) for t in ('x%d' % j, 'z', 'y%d' % j)]
+                    for toks in (longs, longs if r.random() < 0.3 else ['x%d' % (kk - 1), 'z', 'y%d' % (kk - 1)], ['x%d' % (kk - 2), 'z', 'y%d' % (kk - 2)]):
+                        op('parse %d user user 15 %s' % (h, ' '.join(str(g.code(t)) for t in toks))); nparse[h] += 1
             elif x < 0.40:
                 # one setting, or a burst of several (conjunctions of flags; every setter also
                 # reads the previous value back)
